@@ -5,7 +5,7 @@ ALL = [f"C{i:02d}" for i in range(1, 21)]
 CLAIMED = {
  "C20": dict(
    technique="differential testing over generated pure core computations: plain run vs @[monadic] block instantiated at the identity monad (and at Reader Unit), cross-checked against the reference machine",
-   text="Exploration. Type-directed generation of closed returning computations in the fragment the algebra translation supports (ret, do, fn/application incl. redexes, thunks/force, transparent data with exhaustive matches incl. nested and wildcard arms, tuple/alias patterns, lets, calls to let-bound thunks) with a printable result type; one program runs the body plain, then the @[monadic] block at (Ret, return = ret, bind = run then continue), then at Reader Unit; the identity result must equal the plain result (which must equal the reference machine's), and no instantiation may go wrong; refused blocks are counted discards.",
+   text="Exploration. Type-directed generation of closed returning computations in the fragment the algebra translation supports (ret, do, fn/application incl. redexes, thunks/force, transparent data with exhaustive matches incl. nested and wildcard arms, tuple/alias patterns, lets, calls to let-bound thunks) with a printable result type; one program runs the body plain, then the @[monadic] block at (Ret, return = ret, bind = run then continue), then at Reader Unit; the identity result must equal the plain result (which must equal the reference machine's), and no instantiation may go wrong; refused blocks are counted discards. One program also contains a second identical block, and — for half of the cases — the leading closed lets of the body as global definitions referenced by both blocks, plus a third block calling the first global from a let tail.",
    note="bodies are effect free (host operations cannot be referenced inside a block), so evaluation-order changes are visible only through values; a differing Reader result is counted, not reported",
    ref="§3 C20"),
  "C04": dict(
@@ -20,12 +20,12 @@ CLAIMED = {
    ref="§3 C03"),
  "C07": dict(
    technique="metamorphic testing over generated core programs: naming strategies (unique / maximally shadowing / reused per scope / rotated) must not change verdict or behaviour versus the reference machine; capture probes",
-   text="Exploration. Generated core programs (all binders: let, do, fn, match/comatch arms, fix, type binders, declarations) are printed under four binder-naming strategies that the reference semantics (own CK machine with structural environments) cannot distinguish; each print must be accepted and run to the reference (stdout, exit). Hand-written capture probes per binder form pin the expected answer for shadowing in bindee/body positions.",
+   text="Exploration. Generated core programs (all binders: let, do, fn, match/comatch arms, fix, type binders, declarations) are printed under four binder-naming strategies that the reference semantics (own CK machine with structural environments) cannot distinguish; each print must be accepted and run to the reference (stdout, exit). Hand-written capture probes per binder form pin the expected answer for shadowing in bindee/body positions. Added: token-level capture-free renaming (the printer marks every binder's scope; a binder takes any identifier that does not occur in its scope, preferring identifiers of its own annotation or bindee); probe families for a binder named after a name in its own annotation and for a `that` definition shadowing an enclosing parameter over many block / environment sizes, in the root and in an imported source.",
    note="trusted base: the naming module and reference machine in /verif/harness/src/core; names drawn only from non-reserved identifiers",
    ref="§3 C07"),
  "C09": dict(
    technique="exhaustive small-scope enumeration plus random generation of file graphs against a reachability/cycle oracle; differential multi-file vs inlined programs from the core generator; generativity probes",
-   text="Exploration. (a) All 2^22 edge-set/companion/root/spelling codes on {a.zy,a.zyi,b.zy,b.zyi} in thorough (20k biased samples in quick) and random graphs of 2-12 files with duplicates, missing files, six path spellings incl. directory and file symlinks: graph() reports Cycle iff a cycle over import+signature edges is reachable, steps are real edges that chain and close; otherwise sources = reachable canonical files once, imports = occurrences, providers before consumers. (b) Generated programs with closed literal sub-values moved into provider files (imported once or several times, both import forms, three spellings) accept and behave exactly as the single-file program; exact companions change nothing, a wrong companion is rejected. (c) Generativity probes: def imported twice distinct, let-bound import shared, transparent definition equal.",
+   text="Exploration. (a) All 2^22 edge-set/companion/root/spelling codes on {a.zy,a.zyi,b.zy,b.zyi} in thorough (20k biased samples in quick) and random graphs of 2-12 files with duplicates, missing files, six path spellings incl. directory and file symlinks: graph() reports Cycle iff a cycle over import+signature edges is reachable, steps are real edges that chain and close; otherwise sources = reachable canonical files once, imports = occurrences, providers before consumers. (b) Generated programs with closed literal sub-values moved into provider files (imported once or several times, both import forms, three spellings) accept and behave exactly as the single-file program; exact companions change nothing, a wrong companion is rejected. (c) Generativity probes: def imported twice distinct, let-bound import shared, transparent definition equal. Random graphs place some files in a sibling directory behind a symlink (so a companion .zyi can be a link and one file is reachable under two paths) and add same-named decoy files in both directories.",
    note="trusted base: props/c09.rs graph oracle (DFS + reachability, 40 lines); providers restricted to closed literals because an imported source starts from an empty environment",
    ref="§3 C09"),
  "C15": dict(
@@ -35,7 +35,7 @@ CLAIMED = {
    ref="§3 C15"),
  "C17": dict(
    technique="exhaustive enumeration of the degenerate sequential schedules + randomised multi-threaded stress (many seeds and thread counts) against a sequential fresh-session oracle keyed by the contents each snapshot saw",
-   text="Exploration. Decided exactly: every (file, variant, root) instance of `snapshot first loads a provider, owner then edits it`, and every ordered selection of 2-3 small programs through check_resolved on one session. Explored by stress: an owner applying edits while 2-14 analyser threads query snapshots inside salsa::Cancelled::catch and allocator threads issue identifiers; every completed analysis must equal the fresh answer for the recorded contents or be Cancelled, identifiers must be pairwise distinct; no progress for 60 s is inconclusive. Interleavings are not enumerated.",
+   text="Exploration. Decided exactly: every (file, variant, root) instance of `snapshot first loads a provider, owner then edits it`, and every ordered selection of 2-3 small programs through check_resolved on one session. Explored by stress: an owner applying edits while 2-14 analyser threads query snapshots inside salsa::Cancelled::catch and allocator threads issue identifiers; every completed analysis must equal the fresh answer for the recorded contents or be Cancelled, identifiers must be pairwise distinct; no progress for 60 s is inconclusive. Interleavings are not enumerated. Added schedule S3: k snapshots first-analyse k roots sharing an import the session has not loaded, behind a barrier; the owner then overlays the shared file and every root must show the new text (120 trials, 2/4/8 threads).",
    note="trusted base: harness mutex discipline (snapshot + model copy taken atomically; no snapshot held across an owner write); all files are inputs before the first snapshot; no deletions in the stress part",
    ref="§3 C17"),
  "C12": dict(
@@ -50,12 +50,12 @@ CLAIMED = {
    ref="§3 C13"),
  "C14": dict(
    technique="metamorphic testing: fmt∘fmt = fmt, fmt(x) = fmt(x′) for spacing-related pairs, and differential agreement of `fmt --check` with `fmt` through the real CLI",
-   text="Exploration. Over the same generated and mutated sources as C12: second-pass equality, exactly one trailing newline, no cycles within 4 passes, sources differing only in horizontal spacing format identically, and `fmt --check` reports exactly the files `fmt` then modifies. Non-idempotence is classified by how the second pass differs; the classes seen on the unchanged tree are listed as open findings (F16b, F19–F22), any other class is a violation.",
+   text="Exploration. Over the same generated and mutated sources as C12: second-pass equality, exactly one trailing newline, no cycles within 4 passes, sources differing only in horizontal spacing format identically, and `fmt --check` reports exactly the files `fmt` then modifies. Non-idempotence is classified by how the second pass differs; the classes seen on the unchanged tree are listed as open findings (F16b, F19–F22), any other class is a violation. `fmt --check` is also run over several files in every argument order. Non-idempotence is classified (tokens / layout only) and layout-only differences are keyed by the joint at which the passes part; only joints seen on the unchanged tree are listed findings.",
    note="trusted base: byte comparison; classification of differences in props/c14.rs",
    ref="§3 C14"),
  "C16": dict(
    technique="repeated execution in fresh processes (randomised SipHash keys, ASLR, varied environment order / HOME / cwd) with byte comparison",
-   text="Exploration. check, run, fmt --check and build -t zir|zasm|asm|llvm are run several times in fresh processes on repository executables, failing fixtures, generated rejected programs with several independent errors, a block with many independent bindings and generated core programs; stdout, stderr and exit status must be byte-identical.",
+   text="Exploration. check, run, fmt --check and build -t zir|zasm|asm|llvm are run several times in fresh processes on repository executables, failing fixtures, generated rejected programs with several independent errors, a block with many independent bindings and generated core programs; stdout, stderr and exit status must be byte-identical. Sample sources include diagnostics that list things (seven missing destructors, overlapping clauses, duplicate and unbound names) and recursive groups of three and four definitions with two erroneous members; child processes have a 20 s deadline.",
    note="trusted base: the OS gives each process fresh hash seeds and addresses; thread ids in Rust panic messages are masked",
    ref="§3 C16"),
  "C05": dict(
@@ -70,37 +70,37 @@ CLAIMED = {
    ref="§3 C06"),
  "C01": dict(
    technique="type-directed program generation + corpus token mutation (proptest choice tapes), filtered by the implementation's own accept verdict; stuck-state classification of fuel-bounded runs on adversarial inputs",
-   text="Exploration. Generated core programs, every repository executable and its still-accepted token mutants are run with the interpreter on six stdin contents (empty, lines, numbers incl. out of range, a 70 kB line, invalid UTF-8, generated) and two argument vectors under a fuel bound; any way of ending other than exit / return / fuel / the division trap / a legacy-stdio host failure is a stuck state. Soundness beyond the generated core and the corpus neighbourhood is not established.",
+   text="Exploration. Generated core programs, every repository executable and its still-accepted token mutants are run with the interpreter on six stdin contents (empty, lines, numbers incl. out of range, a 70 kB line, invalid UTF-8, generated) and two argument vectors under a fuel bound; any way of ending other than exit / return / fuel / the division trap / a legacy-stdio host failure is a stuck state. Soundness beyond the generated core and the corpus neighbourhood is not established. Added streams: pattern rows over catalogue/random data types as match, comatch argument patterns or fn/let/do/value-level binders applied to every enumerated value; record programs (nested named products, every projection); mutants of generated programs (all C03 operators plus free-form clause edits) that check still accepts; fixed probes of accepted-but-goes-wrong shapes seen before (term holes are a listed finding).",
    note="trusted base: classification of panic messages in drive.rs; fuel bound 200k/50k steps; the generator (harness/src/core)",
    ref="§3 C01"),
  "C02": dict(
    technique="differential testing against an independent reference CK machine (R-sem) and host model on generated typed programs, under several meaning-preserving printings",
-   text="Exploration. Each generated core program (with effects placed in thunks, arguments, arms and bindees) is printed under three style combinations and run by the real pipeline on a generated stdin; stdout bytes and exit code / trap must equal those of an independent CBPV CK machine running the AST with a host-operation model. Agreement outside the generated core language is not established.",
+   text="Exploration. Each generated core program (with effects placed in thunks, arguments, arms and bindees) is printed under three style combinations and run by the real pipeline on a generated stdin; stdout bytes and exit code / trap must equal those of an independent CBPV CK machine running the AST with a host-operation model. Agreement outside the generated core language is not established. Added stream: record programs — random nested named products (a record in first, middle and last position), values written flat / with nested literal tails / through tail variables, every field path projected in one chain or stepwise; expected = the stored integer. Generated programs now include product tails, clauses with up to four parameters, function telescopes printed as comatch clauses and comatch observed in place.",
    note="trusted base: R-sem (core/eval.rs), H-model (hmodel.rs), printer (core/print.rs); fuel-bounded on both sides",
    ref="§3 C02"),
  "C18": dict(
    technique="generated and targeted accepted programs pushed through lower/render/emit under panic capture, followed by an independent re-validation of the produced SPSLow tree, assembly arena and AMD64 text",
-   text="Exploration. Every accepted executable from the generator, 12 targeted shapes and repository executables (plus accepted mutants) must lower, render and emit without an internal error, and the produced IR must satisfy its stated invariants as re-derived by the harness's own traversal (closed root, no implicit capture, unique labels, no shared node, stack lets exactly at coproduct matches, layouts, defined jump targets/symbols, AMD64 labels defined or extern). Known open finding F12 (catch-all / nested constructor arms) is tolerated by exact signature.",
+   text="Exploration. Every accepted executable from the generator, 12 targeted shapes and repository executables (plus accepted mutants) must lower, render and emit without an internal error, and the produced IR must satisfy its stated invariants as re-derived by the harness's own traversal (closed root, no implicit capture, unique labels, no shared node, stack lets exactly at coproduct matches, layouts, defined jump targets/symbols, AMD64 labels defined or extern). Known open finding F12 (catch-all / nested constructor arms) is tolerated by exact signature. Added streams: record programs and pattern-row programs; the two listed lowering panics carry the shape of the source in their signature (catch-all or nested patterns / constructor pattern in a binder / flat arms only).",
    note="trusted base: harness validators in props/c18.rs; LLVM text is only produced `where supported` (LlvmUnsupportedLocal otherwise)",
    ref="§3 C18"),
  "C19": dict(
    technique="translation validation by differential execution: an independent first-order SPS reference machine (M-sps) runs the real SpsLowProgram and is compared with the interpreter on generated programs",
-   text="Exploration. For generated core programs the first-order stack-passing program produced by the real lowering is executed by an independent machine written from the documented SPSLow semantics (blocks see only their label, explicit closure/continuation packages, tag dispatch by index, physical product layouts, host model) and must reproduce the interpreter's stdout and exit code / trap. Stops at SPSLow.",
+   text="Exploration. For generated core programs the first-order stack-passing program produced by the real lowering is executed by an independent machine written from the documented SPSLow semantics (blocks see only their label, explicit closure/continuation packages, tag dispatch by index, physical product layouts, host model) and must reproduce the interpreter's stdout and exit code / trap. Stops at SPSLow. The pipeline is stopped at SPSLow (drive::lower_to_sps), so programs whose later assembly lowering is a listed finding are still compared; added streams: record programs and pattern-row programs applied to every enumerated value.",
    note="trusted base: M-sps (harness/src/sps.rs), H-model; programs whose lowering hits known finding F12 are discarded and counted",
    ref="§3 C19"),
  "C10": dict(
-   technique="grammar-directed generation + token-level mutation of the corpus + raw token/byte soup (proptest, choice tapes); totality and location-validity predicate; subprocess agreement with the real CLI",
-   text="Exploration. Generated syntactically valid but ill-formed terms over every grammar production (extreme literals, arbitrary metadata), token mutations of every repository source and raw token/byte soup are pushed through parse, directives, desugar, resolve, check and diagnostic rendering; every case must return a verdict or an error value without unwinding, and every location mentioned must lie in its file. Shrunk earlier findings are replayed first. Bounded nesting depth; absence of panics beyond the explored inputs is not established.",
+   technique="grammar-directed generation + token-level mutation of the corpus + raw token/byte soup (proptest, choice tapes); totality and location-validity predicate; subprocess agreement with the real CLI + coverage-guided fuzzing (libFuzzer via cargo-fuzz) in the thorough tier",
+   text="Exploration. Generated syntactically valid but ill-formed terms over every grammar production (extreme literals, arbitrary metadata), token mutations of every repository source and raw token/byte soup are pushed through parse, directives, desugar, resolve, check and diagnostic rendering; every case must return a verdict or an error value without unwinding, and every location mentioned must lie in its file. Shrunk earlier findings are replayed first. Bounded nesting depth; absence of panics beyond the explored inputs is not established. Added stage (d): mutants of generated well-typed core programs (every C03 operator plus free-form clause edits) checked for totality. Thorough tier: a coverage-guided libFuzzer campaign (cargo-fuzz target /verif/fuzz `front`, 300 000 executions, same oracle code) whose artifact becomes the replay file.",
    note="trusted base: harness drivers replicate cli/src/diagnostics.rs rendering into buffers (plus a sample through the real binary); proptest; rustc",
    ref="§3 C10"),
  "C11": dict(
-   technique="mutation-based generation (lexical irregularities at token gaps, exhaustive on small bases) against an independent maximal-munch scanner as extent oracle",
-   text="Exploration. Every repository source and 30 grammar snippets receive 0-2 of 33 lexical irregularities at token gaps (exhaustively for the snippets); whenever the parser accepts, the root term's span must equal the extent of all non-comment tokens computed by an independent scanner written from the token definitions.",
+   technique="mutation-based generation (lexical irregularities at token gaps, exhaustive on small bases) against an independent maximal-munch scanner as extent oracle + coverage-guided fuzzing (libFuzzer via cargo-fuzz) in the thorough tier",
+   text="Exploration. Every repository source and 30 grammar snippets receive 0-2 of 33 lexical irregularities at token gaps (exhaustively for the snippets); whenever the parser accepts, the root term's span must equal the extent of all non-comment tokens computed by an independent scanner written from the token definitions. 44 irregularities incl. tokens whose value is refused (over-wide numerals, `'''`). Thorough tier: the libFuzzer campaign of C10 with this property's oracle.",
    note="trusted base: S-scan (harness/src/scan.rs) as specification of the lexical grammar; an unterminated `/-` comments out the rest of the file",
    ref="§3 C11"),
  "C08": dict(
    technique="exhaustive enumeration + proptest random generation against a transitive-closure SCC oracle; permutation metamorphic testing of generated blocks",
-   text="Exploration. The public graph API is decided on every digraph with at most 4 nodes (self-loops included; exhaustive) and on random digraphs with 5-12 nodes under several labelings and release disciplines, against SCCs computed by transitive closure; at the language level generated begin-blocks are printed in many permutations and must keep verdict and behaviour. Absence beyond the explored sizes is not established.",
+   text="Exploration. The public graph API is decided on every digraph with at most 4 nodes (self-loops included; exhaustive) and on random digraphs with 5-12 nodes under several labelings and release disciplines, against SCCs computed by transitive closure; at the language level generated begin-blocks are printed in many permutations and must keep verdict and behaviour. Absence beyond the explored sizes is not established. Added: blocks with `param … that` contributions applied to their values (parameters keep their relative order under permutation) and parameters typed through block-local aliases (every placement of the definitions must bind the same arguments).",
    note="trusted base: harness oracle (bit-set transitive closure), rustc, proptest; the harness links /repo's crates from the working tree",
    ref="§3 C08"),
 }
